@@ -1,4 +1,5 @@
 import PyImpSpec.Drt
+import PyImpSpec.RQArea
 import PyImpSpec.ExprC
 import PyImpSpec.Gen.Kernels
 import Mathlib.Analysis.SpecialFunctions.Gaussian.GaussianIntegral
@@ -6,6 +7,8 @@ import Mathlib.Analysis.SpecialFunctions.Trigonometric.Bounds
 import Mathlib.Analysis.SpecialFunctions.Trigonometric.DerivHyp
 import Mathlib.Analysis.SpecialFunctions.Pow.Real
 import Mathlib.Tactic.Linarith
+import Mathlib.Analysis.SpecialFunctions.Trigonometric.ArctanDeriv
+import Mathlib.MeasureTheory.Integral.IntervalIntegral.FundThmCalculus
 
 /-! # C13 — DRT results carry the physics: area = resistance, peaks at RC
 
@@ -16,7 +19,7 @@ length of the ln(τ) axis and do not change when all τ are rescaled; normalisat
 impedance scale.  Loewner method: a pole `−1/τ` with residue `R/τ` is reported as `(τ, R)` exactly, with the
 stated scaling behaviour.  m(RQ)fit: the (RC) distribution is a Gaussian in ln τ centred at `τ₀` whose
 integral over ln τ is `R`; the (RQ) distribution is positive, symmetric and maximal at `τ₀ = (R·Y)^(1/n)`,
-and both scale linearly with `R`.  NNLS, Tikhonov regularisation, λ selection, SVD and the fits are
+its area over ln τ tends to `R`, and both scale linearly with `R`.  NNLS, Tikhonov regularisation, λ selection, SVD and the fits are
 numerical (PARTIAL): decided by the oracle on `calculate_drt`. -/
 
 namespace C13
@@ -323,5 +326,23 @@ theorem mrq_scale (R W n τ τ0 c : ℝ) :
 
 theorem all_drt_kernels_covered :
     Gen.K.drtKernels = ["trnnls_A", "trnnls_b(shape)", "trnnls_normalize(shape)", "lm_peaks", "mrq_gamma"] := by decide
+
+/-! ### the area of the (RQ) distribution -/
+
+/-- **The (RQ) distribution of `_calculate_tau_gamma` integrates over ln τ to the element's resistance**:
+the area of the translated term over the window `[τ₀e^{-T}, τ₀e^{T}]` tends to `R` as the window grows
+(`0 < n < 1`, `τ₀ > 0`). -/
+theorem mrq_rq_area (R n τ0 : ℝ) (h0 : 0 < n) (h1 : n < 1) (hτ : 0 < τ0) :
+    Filter.Tendsto (fun T : ℝ => ∫ x in (-T)..T, (evalC (envM R 0 n (τ0 * Real.exp x) τ0) Gen.K.mrq_gamma_rq).re)
+      Filter.atTop (nhds R) := by
+  have : (fun T : ℝ => ∫ x in (-T)..T, (evalC (envM R 0 n (τ0 * Real.exp x) τ0) Gen.K.mrq_gamma_rq).re)
+      = fun T : ℝ => ∫ x in (-T)..T, RQ.g R n x := by
+    funext T
+    congr 1
+    funext x
+    rw [mrq_rq_formula R n τ0 x hτ, Complex.ofReal_re]
+    rfl
+  rw [this]
+  exact RQ.area_tendsto R n h0 h1
 
 end C13
